@@ -1,5 +1,6 @@
-(** C36 — the extension, finding 5: a message with ID 0, Ty 0 and nil Data is taken for the
-    close sentinel by the subscriber pump. *)
+(** C36 — the extension, former finding 5 (repaired: isEnd knows the sentinel by identity):
+    a subscriber's pump stops only when its topic or its client is closed, whatever the
+    messages look like. *)
 From Coq Require Import List NArith Bool Lia.
 From C33 Require Import C36.Model C36.ProofsBase C36.ProofsClose C36.ProofsBlock C36.ProofsOcc C36.ProofsExt C36.ProofsExt2.
 Import ListNotations.
@@ -31,27 +32,14 @@ Proof.
   intros y Hy. apply in_or_app; left; exact Hy.
 Qed.
 
-(** *** the invariant: messages in the channels and parked sends have non-zero IDs, the
-    sentinel lies only in closed topics, a pump has returned only after a close *)
-Definition nonzero_ok (s : state) : Prop :=
-  (forall t hi o, In (IMsg o) (citems s t hi) -> o_id (go s o) <> 0)
-  /\ (forall p pd, In (p, pd) (s_pend s) -> o_id (go s (p_obj pd)) <> 0).
+(** *** the invariant: the sentinel lies only in closed topics, a pump has returned only
+    after a close *)
 Definition sentinel_ok (s : state) : Prop :=
   forall t hi, In ISent (citems s t hi) -> t_closed (gt s t) = true.
 Definition pump_exit_ok (s : state) : Prop :=
   (forall c, c_pump (gc s c) = PExit -> t_closed (gt s (c_topic (gc s c))) = true \/ c_closing (gc s c) = true)
   /\ (forall k, x_st (gx s k) = PExit ->
         t_closed (gt s (x_topic (gx s k))) = true \/ c_closing (gc s (x_client (gx s k))) = true).
-
-(* identifiers change only through NewMessage, and then to a non-zero value *)
-Lemma id_step s e s' o : step s e = Some s' -> o_id (go s o) <> 0 -> o_id (go s' o) <> 0.
-Proof.
-  intros H Hn. destruct e; step_inv H; autorewrite with frame; eqb_cases; bool_hyps; simpl; auto;
-    repeat match goal with x : item |- _ => destruct x; simpl; autorewrite with frame end;
-    eqb_cases; simpl; auto; try congruence.
-  all: try match goal with H : (s_gid _ <? ?i) = true |- _ => apply N.ltb_lt in H; lia end.
-  match goal with H : (o_id _ =? 0) = true |- _ => apply N.eqb_eq in H; contradiction end.
-Qed.
 
 Lemma closing_mono s e s' c : step s e = Some s' -> c_closing (gc s c) = true -> c_closing (gc s' c) = true.
 Proof.
@@ -86,38 +74,6 @@ Proof.
     auto 6.
 Qed.
 
-Lemma pend_step s e s' p pd :
-  step s e = Some s' -> In (p, pd) (s_pend s') ->
-  In (p, pd) (s_pend s) \/ (exists c hi m, e = EBlock p c (p_obj pd) hi m).
-Proof.
-  intros H Hin. destruct e; try (left; step_inv H; autorewrite with frame in Hin;
-                                 repeat match goal with x : item |- _ => destruct x end;
-                                 autorewrite with frame in Hin; exact Hin).
-  - step_inv H; autorewrite with frame in Hin; (destruct Hin as [[= <- <-]|Hin]; [right; simpl; eauto|left; exact Hin]).
-  - left. step_inv H; autorewrite with frame in Hin; eapply pend_del_in; eauto.
-Qed.
-
-Lemma nonzero_step s e s' : nonzero_ok s -> rdisc s e = true -> step s e = Some s' -> nonzero_ok s'.
-Proof.
-  intros [A B] G H. split.
-  - intros t hi o Hin. eapply id_step; [exact H|]. unfold citems in Hin.
-    destruct (gt_step s e s' t H) as [Hg|[(h & o1 & Hg & Hs)|[(h & x & f' & Hp & Hg)|[Hg|Hg]]]]; rewrite Hg in Hin.
-    + eapply A; eauto.
-    + apply in_set_chan in Hin as [Hin|Hin]; [|eapply A; eauto].
-      simpl in Hin. destruct Hin as [[= ->]|Hin]; [|eapply A; eauto].
-      destruct e; simpl in Hs; try discriminate Hs.
-      * destruct r; try discriminate Hs. injection Hs as ->. simpl in G. apply negb_true_iff, N.eqb_neq in G. exact G.
-      * destruct r; try discriminate Hs. destruct (pend_get p (s_pend s)) as [pd|] eqn:Eg; [|discriminate].
-        injection Hs as <-. eapply B. eapply pend_get_in; eauto.
-    + apply in_set_chan in Hin as [Hin|Hin]; [|eapply A; eauto].
-      eapply A. apply (proj2 (fpop_in _ _ _ Hp)). exact Hin.
-    + apply in_close_topic in Hin as [Hin|Hin]; [discriminate|eapply A; eauto].
-    + apply in_close_all in Hin as [_ [Hin|Hin]]; [discriminate|eapply A; eauto].
-  - intros p pd Hin. eapply id_step; [exact H|].
-    destruct (pend_step s e s' p pd H Hin) as [Hold|(c & hi & m & ->)]; [eapply B; eauto|].
-    simpl in G. apply negb_true_iff, N.eqb_neq in G. exact G.
-Qed.
-
 Lemma sentinel_step s e s' : sentinel_ok s -> step s e = Some s' -> sentinel_ok s'.
 Proof.
   intros A H t hi Hin. unfold citems in Hin.
@@ -132,22 +88,21 @@ Proof.
 Qed.
 
 (* the first subscription's pump: it has returned before, or returns now -- through a
-   closed done channel, the sentinel, or a message that looks like it *)
+   closed done channel or the sentinel *)
 Lemma pump_step s e s' c :
   step s e = Some s' -> c_pump (gc s' c) = PExit ->
   c_topic (gc s' c) = c_topic (gc s c)
   /\ (c_pump (gc s c) = PExit
       \/ t_closed (gt s (c_topic (gc s c))) = true \/ c_closing (gc s c) = true
       \/ (exists hi x f', fpop (chan_of (gt s (c_topic (gc s c))) hi) = Some (x, f')
-                          /\ (x = ISent \/ exists o, x = IMsg o /\ o_id (go s o) = 0))).
+                          /\ x = ISent)).
 Proof.
   intros H.
   destruct e; step_inv H; autorewrite with frame; eqb_cases; simpl; auto; try congruence;
     repeat match goal with x : item |- _ => destruct x; autorewrite with frame; eqb_cases; simpl; auto end;
     try congruence; bool_hyps; auto.
   all: intros _; split; [reflexivity|].
-  all: try (right; right; right; eexists _, _, _; (split; [eassumption|]);
-            first [left; reflexivity | right; eexists; (split; [reflexivity|]); apply N.eqb_eq; assumption]).
+  all: try (right; right; right; eexists _, _, _; (split; [eassumption|]); reflexivity).
   all: match goal with E : (_ || _) = true |- _ => apply orb_true_iff in E as [E|E]; auto end.
 Qed.
 
@@ -157,42 +112,34 @@ Lemma xpump_step s e s' k :
   /\ (x_st (gx s k) = PExit
       \/ t_closed (gt s (x_topic (gx s k))) = true \/ c_closing (gc s (x_client (gx s k))) = true
       \/ (exists hi x f', fpop (chan_of (gt s (x_topic (gx s k))) hi) = Some (x, f')
-                          /\ (x = ISent \/ exists o, x = IMsg o /\ o_id (go s o) = 0))).
+                          /\ x = ISent)).
 Proof.
   intros H.
   destruct e; step_inv H; autorewrite with frame; eqb_cases; simpl; auto; try congruence;
     repeat match goal with x : item |- _ => destruct x; autorewrite with frame; eqb_cases; simpl; auto end;
     try congruence; bool_hyps; auto.
   all: intros _; split; [reflexivity|]; split; [reflexivity|].
-  all: try (right; right; right; eexists _, _, _; (split; [eassumption|]);
-            first [left; reflexivity | right; eexists; (split; [reflexivity|]); apply N.eqb_eq; assumption]).
+  all: try (right; right; right; eexists _, _, _; (split; [eassumption|]); reflexivity).
   all: match goal with E : (_ || _) = true |- _ => apply orb_true_iff in E as [E|E]; auto end.
 Qed.
 
-Definition rinv (s : state) : Prop := nonzero_ok s /\ sentinel_ok s /\ pump_exit_ok s.
+Definition rinv (s : state) : Prop := sentinel_ok s /\ pump_exit_ok s.
 
 Lemma rinv_init cp : rinv (init cp).
 Proof.
-  split; [split|split; [|split]].
-  - intros t hi o H. destruct hi; contradiction H.
-  - intros p pd [].
+  split; [|split].
   - intros t hi H. destruct hi; contradiction H.
   - intros c H. discriminate H.
   - intros k H. discriminate H.
 Qed.
 
 Lemma popped_means_closed s t hi x f' :
-  nonzero_ok s -> sentinel_ok s -> fpop (chan_of (gt s t) hi) = Some (x, f') ->
-  (x = ISent \/ exists o, x = IMsg o /\ o_id (go s o) = 0) -> t_closed (gt s t) = true.
-Proof.
-  intros [A _] S Hp Hx. destruct (fpop_in _ _ _ Hp) as [Hin _].
-  destruct Hx as [->|(o & -> & Hz)]; [eapply S; exact Hin|].
-  exfalso. exact (A t hi o Hin Hz).
-Qed.
+  sentinel_ok s -> fpop (chan_of (gt s t) hi) = Some (x, f') -> x = ISent -> t_closed (gt s t) = true.
+Proof. intros S Hp ->. destruct (fpop_in _ _ _ Hp) as [Hin _]. eapply S; exact Hin. Qed.
 
-Lemma rinv_step s e s' : rinv s -> rdisc s e = true -> step s e = Some s' -> rinv s'.
+Lemma rinv_step s e s' : rinv s -> step s e = Some s' -> rinv s'.
 Proof.
-  intros (A & S & [P1 P2]) G H. split; [eapply nonzero_step; eauto|]. split; [eapply sentinel_step; eauto|].
+  intros (S & [P1 P2]) H. split; [eapply sentinel_step; eauto|].
   split.
   - intros c Hc. destruct (pump_step s e s' c H Hc) as (Ht & Hcase). rewrite Ht.
     assert (Hold : t_closed (gt s (c_topic (gc s c))) = true \/ c_closing (gc s c) = true).
@@ -206,75 +153,43 @@ Proof.
     destruct Hold as [Hx|Hx]; [left; eapply tclosed_mono; eauto|right; eapply closing_mono; eauto].
 Qed.
 
-(** *** the statements *)
-(* full strength: a subscriber's pump stops only when its topic or its client is closed
-   (otherwise accepted requests stay in the channel for ever) *)
-Definition pump_stops_only_on_close_full : Prop :=
+(** *** the statement, at full strength: a subscriber's pump stops only when its topic or its
+    client is closed (so accepted requests do not stay in the channel for ever) *)
+Lemma pump_stops_only_on_close_proof :
   forall cp tr s, run (init cp) tr = Some s ->
-    (forall c, c_pump (gc s c) = PExit -> t_closed (gt s (c_topic (gc s c))) = true \/ c_closing (gc s c) = true)
-    /\ (forall k, x_st (gx s k) = PExit ->
-          t_closed (gt s (x_topic (gx s k))) = true \/ c_closing (gc s (x_client (gx s k))) = true).
-
-(* client 1 sends queue.NewMessage(0, topic, 0, nil) to subscriber 0: the pump takes it for
-   the sentinel and returns; the next request is accepted and never delivered, its wait blocks *)
-Definition lookalike_trace : list event :=
-  [ ESub 0 0; ENewRaw 0 0; ESend 1 0 true MForever SOk; EPumpTake 0 true;
-    ENew 1 0 1; ESend 1 1 true MForever SOk ].
-
-Lemma lookalike_runs :
-  exists s, run (init (mkCaps 2 2 5)) lookalike_trace = Some s
-    /\ c_pump (gc s 0) = PExit /\ c_topic (gc s 0) = 0
-    /\ t_closed (gt s 0) = false /\ c_closing (gc s 0) = false /\ s_qclosed s = false
-    /\ f_len (t_high (gt s 0)) = 1 /\ f_len (c_recv (gc s 0)) = 0
-    /\ step s (EPumpTake 0 true) = None /\ step s (EPumpPut 0) = None
-    /\ (forall o i, step s (ERecv 0 o i) = None)
-    /\ (forall r, step s (EWait 1 1 false r) = None).
-Proof.
-  eexists. split; [vm_compute; reflexivity|]. repeat split; try (vm_compute; reflexivity).
-  intros r. destruct r as [[i|]| | |]; vm_compute; reflexivity.
-Qed.
-
-Lemma pump_stops_only_on_close_refuted : ~ pump_stops_only_on_close_full.
-Proof.
-  intros F. destruct lookalike_runs as (s & Hr & Hp & Htp & Ht & Hc & _).
-  destruct (proj1 (F _ _ _ Hr) 0 Hp) as [H|H]; [rewrite Htp in H|]; congruence.
-Qed.
-
-(** with the guard "every message that is sent has a non-zero ID" *)
-Lemma pump_stops_only_on_close_partial :
-  forall cp tr s, grun rdisc (init cp) tr = Some s ->
     (forall c, c_pump (gc s c) = PExit -> t_closed (gt s (c_topic (gc s c))) = true \/ c_closing (gc s c) = true)
     /\ (forall k, x_st (gx s k) = PExit ->
           t_closed (gt s (x_topic (gx s k))) = true \/ c_closing (gc s (x_client (gx s k))) = true).
 Proof.
   intros cp tr s Hr.
   assert (I : rinv s).
-  { eapply (grun_invariant rdisc rinv); [|apply rinv_init|exact Hr]. intros; eapply rinv_step; eauto. }
-  exact (proj2 (proj2 I)).
+  { eapply (run_invariant rinv); [|apply rinv_init|exact Hr]. intros; eapply rinv_step; eauto. }
+  exact (proj2 I).
 Qed.
 
-(* and then a message lying in an open topic's channel in front of a running idle pump can
-   be taken: it is not lost *)
+(* and a message lying in an open topic's channel in front of a running idle pump can be
+   taken: it is not lost *)
 Lemma running_pump_takes :
-  forall cp tr s c, grun rdisc (init cp) tr = Some s ->
-    c_pump (gc s c) = PRun -> c_hold (gc s c) = None ->
+  forall s c, c_pump (gc s c) = PRun -> c_hold (gc s c) = None ->
     fis_empty (t_high (gt s (c_topic (gc s c)))) = false ->
     exists s', step s (EPumpTake c true) = Some s'.
 Proof.
-  intros cp tr s c _ Hp Hh Hne. simpl. rewrite Hp, Hh.
+  intros s c Hp Hh Hne. simpl. rewrite Hp, Hh.
   unfold fis_empty in Hne. unfold fpop.
   destruct (f_items (t_high (gt s (c_topic (gc s c))))) as [|x l] eqn:E; [discriminate|].
   destruct (rev (x :: l)) as [|y r] eqn:Er.
   { apply (f_equal (@length item)) in Er. rewrite rev_length in Er. discriminate. }
-  destruct y as [o|]; [destruct (o_id (go s o) =? 0)|]; eauto.
+  destruct y as [o|]; eauto.
 Qed.
 
-(* non-vacuity: a disciplined round trip satisfies the guard; the look-alike trace does not *)
-Lemma rdisc_satisfiable :
-  exists s, grun rdisc (init (mkCaps 2 2 5))
-              [ESub 0 0; ENew 0 0 1; ESend 1 0 true MForever SOk; EPumpTake 0 true; EPumpPut 0; ERecv 0 0 1;
-               EReply 0 0 1; EWait 1 0 false (WGot (RFor 1)); ECloseBegin 0; EPumpTake 0 true; ECloseEnd 0] = Some s
-            /\ c_pump (gc s 0) = PExit /\ t_closed (gt s 0) = true.
+(* the former witness: client 1 sends queue.NewMessage(0, topic, 0, nil) to subscriber 0. It is
+   delivered (the subscriber reads ID 0), the pump keeps running and the next request arrives *)
+Definition lookalike_trace : list event :=
+  [ ESub 0 0; ENewRaw 0 0; ESend 1 0 true MForever SOk; EPumpTake 0 true; EPumpPut 0; ERecv 0 0 0;
+    ENew 1 0 1; ESend 1 1 true MForever SOk; EPumpTake 0 true; EPumpPut 0; ERecv 0 1 1 ].
+
+Lemma lookalike_runs :
+  exists s, run (init (mkCaps 2 2 5)) lookalike_trace = Some s
+    /\ c_pump (gc s 0) = PRun /\ t_closed (gt s 0) = false
+    /\ c_held (gc s 0) = [(1, 1); (0, 0)] /\ s_deliv s = [1; 0].
 Proof. eexists. split; [vm_compute; reflexivity|]. repeat split; vm_compute; reflexivity. Qed.
-Lemma lookalike_not_guarded : grun rdisc (init (mkCaps 2 2 5)) lookalike_trace = None.
-Proof. vm_compute. reflexivity. Qed.
